@@ -53,25 +53,31 @@ def skipSpaces : Bytes → Nat
   | [] => 0
   | c :: rest => if Bytes.isSpace c then skipSpaces rest + 1 else 0
 
+/-- optional sign: (negative?, characters consumed) -/
+def signOf : Bytes → Bool × Nat
+  | 45 :: _ => (true, 1)
+  | 43 :: _ => (false, 1)
+  | _ => (false, 0)
+
+/-- base 0: (base, length of the `0x` prefix) -/
+def baseOf : Bytes → Nat × Nat
+  | 48 :: x :: h :: _ =>
+    if (x == 120 || x == 88) && (digitVal 16 h).isSome then (16, 2) else (8, 0)
+  | 48 :: _ => (8, 0)
+  | _ => (10, 0)
+
 /-- `strtoul(s, &eov, 0)`: (result, offset of `eov`) -/
 def strtoul0 (s : Bytes) : Nat × Nat :=
   let sp := skipSpaces s
   let s1 := s.drop sp
-  let (neg, sg) : Bool × Nat := match s1 with
-    | 45 :: _ => (true, 1)
-    | 43 :: _ => (false, 1)
-    | _ => (false, 0)
-  let s2 := s1.drop sg
-  let (base, pre) : Nat × Nat := match s2 with
-    | 48 :: x :: h :: _ =>
-      if (x == 120 || x == 88) && (digitVal 16 h).isSome then (16, 2) else (8, 0)
-    | 48 :: _ => (8, 0)
-    | _ => (10, 0)
-  let (acc, n) := accDigits base (s2.drop pre) 0 0
-  if n == 0 then (0, 0)             -- no conversion: eov = s
+  let sg := signOf s1
+  let s2 := s1.drop sg.2
+  let bp := baseOf s2
+  let an := accDigits bp.1 (s2.drop bp.2) 0 0
+  if an.2 == 0 then (0, 0)             -- no conversion: eov = s
   else
-    let v := if acc > u64max then u64max else if neg then (18446744073709551616 - acc) % 18446744073709551616 else acc
-    (v, sp + sg + pre + n)
+    let v := if an.1 > u64max then u64max else if sg.1 then (18446744073709551616 - an.1) % 18446744073709551616 else an.1
+    (v, sp + sg.2 + bp.2 + an.2)
 
 /-- `conf_parse_integer`: the `unsigned long` truncated to `int` -/
 def parseInteger (v : Bytes) : Nat × Bool :=
